@@ -311,10 +311,11 @@ impl MultiState {
             reap_indices.push(index);
         }
 
-        // If this draw is due to a `println`, then we need to erase all the zombie lines.
-        // This is because `println` is supposed to appear above all other elements in the
-        // `MultiProgress`.
-        if extra_lines.is_some() {
+        // If this draw is due to a `println` (of the `MultiProgress` or of one of its progress
+        // bars), then we need to erase all the zombie lines. This is because `println` is supposed
+        // to appear above all other elements in the `MultiProgress`.
+        let has_text_lines = extra_lines.is_some() || !self.orphan_lines.is_empty();
+        if has_text_lines {
             self.draw_target
                 .adjust_last_line_count(LineAdjust::Clear(self.zombie_lines_count));
             self.zombie_lines_count = VisualLines::default();
@@ -354,7 +355,7 @@ impl MultiState {
         // The zombie lines were drawn for the last time, so make `DrawTarget` forget about them
         // so they aren't cleared on next draw, and track them as zombie lines on the screen. This
         // must only happen once the draw went through (it may have been rate limited above).
-        if extra_lines.is_none() {
+        if !has_text_lines {
             self.draw_target
                 .adjust_last_line_count(LineAdjust::Keep(adjust));
             self.zombie_lines_count = self.zombie_lines_count.saturating_add(adjust);
